@@ -60,7 +60,7 @@ m = {
     ],
     'checks': checks,
     'not_applicable': na,
-    'notes': 'All checks are bounded exhaustive enumerations (no sampling); VERIF_SEED selects PYTHONHASHSEED (set iteration orders inside the library). See DESIGN.md.',
+    'notes': 'All checks are bounded exhaustive enumerations (no sampling); VERIF_SEED selects PYTHONHASHSEED (set iteration orders inside the library). Besides the per-check alphabets in level_claimed, the engine re-runs the smallest tasks of every check under object variants (deep copies, users-first storage, circuits reached through a queried-then-mutated precursor), and most checks add structured families beyond the small-scope bound (chains of 1200-70000 gates, 255-300-operand gates, 9-13-input circuits with narrow cones, history states); evidence/<id>.json states the exact rule and bound of the run. VERIF_TASK_TIMEOUT / VERIF_WORKER_GB bound a single task (a task that does not return is a violation). See DESIGN.md 11.4-11.5.',
 }
 with open(os.path.join(HERE, 'MANIFEST.json'), 'w') as f:
     json.dump(m, f, indent=1)
